@@ -792,6 +792,7 @@ func runClusterScenario(bin, scratch string, seed int64, sc clScenario) (rep clR
 	var histMu sync.Mutex
 	var hist []clOp
 	var stop atomic.Bool
+	var ackedWrites atomic.Int64 // writes acknowledged to the clients so far (a node cut off from the majority cannot acknowledge any)
 	var wg sync.WaitGroup
 	record := func(o clOp) {
 		histMu.Lock()
@@ -815,6 +816,12 @@ func runClusterScenario(bin, scratch string, seed int64, sc clScenario) (rep clR
 			crng := rand.New(rand.NewSource(seed*7919 + int64(g)))
 			var rc *respConn
 			var node *clNode
+			// proxied scenarios: a client whose command got no reply from a node turns to the OTHER nodes for a while, as a real
+			// client would (the pinned readers keep asking every node).  Every command without a reply is an operation with
+			// unknown outcome that stays concurrent with everything after it: this bounds their number on a cut-off node to
+			// one per client and visit, which keeps the linearizability search within its time limit.
+			var avoid *clNode
+			var avoidUntil time.Time
 			defer func() {
 				if rc != nil {
 					rc.c.Close()
@@ -825,6 +832,15 @@ func runClusterScenario(bin, scratch string, seed int64, sc clScenario) (rep clR
 					nodesMu.RLock()
 					ts := targets()
 					nodesMu.RUnlock()
+					if avoid != nil && time.Now().Before(avoidUntil) && len(ts) > 1 {
+						var others []*clNode
+						for _, t := range ts {
+							if t != avoid {
+								others = append(others, t)
+							}
+						}
+						ts = others
+					}
 					node = ts[crng.Intn(len(ts))]
 					var err error
 					rc, err = dialNode(node, 500*time.Millisecond)
@@ -846,9 +862,16 @@ func runClusterScenario(bin, scratch string, seed int64, sc clScenario) (rep clR
 					record(clOp{Client: g, Node: node.id, Cmd: argv, Key: key, Out: "?", Call: call, Ret: math.MaxInt64 / 2})
 					rc.c.Close()
 					rc = nil
+					if sc.Proxied {
+						avoid, avoidUntil = node, time.Now().Add(4*time.Second)
+						time.Sleep(time.Duration(300+crng.Intn(500)) * time.Millisecond) // and it backs off before it tries again
+					}
 					continue
 				}
 				record(clOp{Client: g, Node: node.id, Cmd: argv, Key: key, Out: out, Call: call, Ret: ret})
+				if !isReadOp(strings.ToLower(argv[0])) {
+					ackedWrites.Add(1)
+				}
 				if crng.Intn(16) == 0 {
 					// nothing may arrive while no command is outstanding (exactly one reply per command)
 					if x := rc.extra(20 * time.Millisecond); x != "" {
@@ -996,6 +1019,15 @@ func runClusterScenario(bin, scratch string, seed int64, sc clScenario) (rep clR
 		note("no other node became leader within %.0fs of the cut", limit.Seconds())
 		return nil
 	}
+	// keep the cut until the majority side has acknowledged writes under its new leader (commands sent to a follower before it gave up
+	// on the old leader were forwarded into the cut and are lost; the clients come back after their deadline), at most 4 s
+	awaitMajorityWrites := func() {
+		base, t := ackedWrites.Load(), time.Now()
+		for time.Since(t) < 4*time.Second && ackedWrites.Load() < base+30 {
+			time.Sleep(50 * time.Millisecond)
+		}
+		note("the majority side acknowledged %d writes in the %.1fs since; the cut stays for another moment", ackedWrites.Load()-base, time.Since(t).Seconds())
+	}
 	for _, f := range sc.Faults {
 		sleepR(300, 1200)
 		switch f {
@@ -1018,7 +1050,8 @@ func runClusterScenario(bin, scratch string, seed int64, sc clScenario) (rep clR
 				note("isolate leader %d (second attempt): its links to all other nodes cut (%d open connections closed)", l.id, k)
 				awaitNewLeader(l, 7*time.Second)
 			}
-			sleepR(1200, 2200)
+			awaitMajorityWrites()
+			sleepR(600, 1400)
 			healAndSettle()
 		case "partition-leader-minority":
 			// the leader and (nodes-1)/2 - 1 followers on one side (a minority that still exchanges heartbeats), the rest on the other
@@ -1041,7 +1074,8 @@ func runClusterScenario(bin, scratch string, seed int64, sc clScenario) (rep clR
 			k := c.partition(group)
 			note("partition: nodes %s (with leader %d) cut from the rest (%d open connections closed)", strings.Join(ids, ","), l.id, k)
 			awaitNewLeader(l, 7*time.Second)
-			sleepR(1200, 2200)
+			awaitMajorityWrites()
+			sleepR(600, 1400)
 			healAndSettle()
 		case "isolate-follower":
 			if fs := followers(); len(fs) > 0 {
@@ -1422,6 +1456,11 @@ func runClusterScenario(bin, scratch string, seed int64, sc clScenario) (rep clR
 		if same && len(rep.Final[k]) == len(live) {
 			rep.AgreeKeys++
 		}
+	}
+	if os.Getenv("VERIF_CLUSTER_HISTORY") != "" && len(rep.History) == 0 {
+		// debugging aid: the whole history of a scenario without a linearizability problem
+		rep.History = append([]clOp(nil), hist...)
+		sort.Slice(rep.History, func(i, j int) bool { return rep.History[i].Call < rep.History[j].Call })
 	}
 	if len(rep.Problems) > 0 {
 		logTails()
